@@ -56,7 +56,7 @@ def run(res, tier, seed):
     cases = [([t + offs[n % 3] for t in ts], [(a + offs[n % 3], b + offs[n % 3]) for a, b in ep]) for n, (ts, ep) in enumerate(cases)]
     lines = ["restrict\t%s\t%s" % (C.fmt_ints(ts), C.fmt_iset(ep)) for ts, ep in cases]
     model = C.run_model(lines)
-    pyf_every = 5 if tier == "quick" else 3
+    pyf_every = 5 if tier == "quick" else 11
     for n, ((ts, ep), mout) in enumerate(zip(cases, model)):
         t = G.arr(ts)
         st = G.arr([s for s, _ in ep])
@@ -100,7 +100,7 @@ def run(res, tier, seed):
 
     # public API
     rng = random.Random(seed + 17)
-    sub = cases if tier == "thorough" else rng.sample(cases, 1500)
+    sub = rng.sample(cases, 12000 if tier == "thorough" else 1500)
     pub = 0
     for ts, ep in sub:
         if len(ts) < 1:
